@@ -121,7 +121,7 @@ CHECKS["C13"] = _resmgr("C13",
 CHECKS["C10"] = dict(
     level="fault_enumeration", engine="crashx",
     technique="explicit-state search over cache operation histories; for every save of every history: enumeration of every crash point (each primitive filesystem step, each byte offset of a write into the cache file) and every single step failure through an os shim; exhaustive permission matrix",
-    rule="all histories of 18 cache operations up to the depth bound on a real cache; per save: the directory state at every primitive-step boundary and at every byte offset of a write that targets the cache file itself "
+    rule="all histories of 18 cache operations up to the depth bound on a real cache that starts on a fresh state directory (the very first save, into a directory without a cache file, is hooked and judged too); per save: the directory state at every primitive-step boundary and at every byte offset of a write that targets the cache file itself "
          "(offsets of writes into the temporary file leave the cache file untouched and are reloaded at the first, middle and last byte only) is materialised and loaded with NewCache; every primitive step is made to fail once "
          "(EIO, also with short writes); target x kind x all 512 modes for the permission clause; non-trivial = histories containing a container / refused permission cases",
     bound=dict(quick="depth 3 histories; 7680 permission cases", thorough="depth 4 histories; 7680 permission cases"),
@@ -152,10 +152,10 @@ CHECKS["C14"] = dict(
 CHECKS["C18"] = dict(
     level="exploration", engine="inputx",
     technique="exhaustive enumeration of annotation maps (every subset of forms, several container-name pairs) and of every iteration permutation of the annotation map and the derived map, against a reference resolver",
-    rule="cache GetEffectiveAnnotation and sgx-epc parseEpcLimit: every subset of {container-specific for C, for each of 4-5 other containers (names that are prefixes/suffixes of each other), pod-wide, bare} x 5-6 target names x keys (with decoy keys); "
-         "memory-qos and memtierd: every combination of class / memory.high / memory.swap.max at pod level, container level or both, plus annotations addressed to another container, "
+    rule="cache GetEffectiveAnnotation and sgx-epc parseEpcLimit: every subset of {container-specific for C, for each of 4-5 other containers (names that are prefixes/suffixes of each other), pod-wide, bare} x every choice of which of the three forms for C carry an EMPTY value (present-but-empty still wins) x 5-6 target names x keys (with decoy keys); "
+         "memory-qos and memtierd: every combination of class (incl. the empty class) / memory.high / memory.swap.max at pod level, container level or both, plus annotations addressed to another container, "
          "each evaluated under ALL permutations of the annotation map and of the derived map (<= 5! each, through the vgen map-range rewrite); non-trivial = maps with at least one relevant annotation (two for the side plugins)",
-    bound=dict(quick="~3000 maps for cache/sgx-epc; ~900 maps x up to 120x24 orders for the side plugins", thorough="same (the family is enumerated completely in both tiers)"),
+    bound=dict(quick="~17000 maps for cache/sgx-epc; ~1500 maps x up to 120x24 orders for the side plugins", thorough="same (the family is enumerated completely in both tiers)"),
     assumptions=["memory-qos/memtierd have two annotation forms (container-specific and pod-level); the three-level rule applies to the cache and sgx-epc resolvers"],
     stages=[dict(pkg="./pkg/resmgr/cache", run="TestVerifC18", shards=1),
             dict(pkg="./cmd/plugins/sgx-epc", run="TestVerifC18", shards=1),
@@ -183,7 +183,7 @@ CHECKS["C15"] = dict(
          "(B) InsertPod + GetPodResources vs the fetch goroutine vs the environment (go/chan operations rewritten to scheduler calls); states = schedules executed, transitions = scheduling points; non-trivial = schedules",
     bound=dict(quick="preemption bound 2", thorough="preemption bound 3 (pipeline) / unbounded (fetch)"),
     assumptions=["scheduling points: resmgr lock operations, proxied cache/policy calls, goroutine creation and channel operations in cache/pod.go; plain memory accesses between points are atomic (data races at the memory-model level are out of scope)",
-                 "prometheus export off (metrics.Block() is a no-op)"],
+                 "menus run with the metrics exporter off and on: with it on, the policy metrics are polled through a private registry gatherer on a scheduler thread of its own and pkg/metrics' mutex is the scheduler-aware shim, so metrics.Block() in updateTopologyZones and the collector's callback into the policy take part in the schedules"],
     stages=[dict(pkg="./pkg/resmgr/cache", run="TestVerifC15Fetch", shards=1),
             dict(pkg="./pkg/resmgr", run="TestVerifC15", shards=16, quick=dict(deadline_s=420), thorough=dict(deadline_s=3000))],
 )
